@@ -80,6 +80,7 @@ def _spawn():
     global _worker
     e = dict(os.environ)
     e['PYTHONPATH'] = env.VERIF + os.pathsep + e.get('PYTHONPATH', '')
+    e['VERIF_CACHE_ROLE'] = e.get('VERIF_CACHE_ROLE', 'C06') + '-worker'
     global _buf
     _buf = b''
     _worker = subprocess.Popen([env.PY, '-u', '-m', 'props.rs_worker'], cwd=env.VERIF, env=e, stdin=subprocess.PIPE,
